@@ -1,6 +1,7 @@
 package c14
 
 import (
+	"fmt"
 	"strings"
 
 	"verifharness/internal/fw"
@@ -74,8 +75,8 @@ func deliveryAddress(r *fw.Rand, naming, n string) string {
 		if r.Chance(1, 4) {
 			local = gen.RandCase(r, local)
 		}
-		if r.Chance(1, 4) {
-			local += "+" + r.Pick([]string{"tag", "x", "a+b"})
+		if ext := "+" + r.Pick([]string{"tag", "x", "a+b"}); r.Chance(1, 4) && len(local)+len(ext) <= maxLocalPart {
+			local += ext
 		}
 		return local + "@" + r.Pick([]string{"alpha.test", "Beta.Test", "[192.168.1.5]"})
 	case "full":
@@ -84,8 +85,8 @@ func deliveryAddress(r *fw.Rand, naming, n string) string {
 		if r.Chance(1, 4) {
 			local = gen.RandCase(r, local)
 		}
-		if r.Chance(1, 4) {
-			local += "+" + r.Pick([]string{"tag", "x"})
+		if ext := "+" + r.Pick([]string{"tag", "x"}); r.Chance(1, 4) && len(local)+len(ext) <= maxLocalPart {
+			local += ext
 		}
 		if r.Chance(1, 4) {
 			dom = gen.RandCase(r, dom)
@@ -102,14 +103,26 @@ func deliveryAddress(r *fw.Rand, naming, n string) string {
 
 // spelling returns the name as used in a lookup: mostly canonical, sometimes another spelling
 // that M-naming maps to the same mailbox.
+//
+// A long name (more than 60 characters) is looked up by its full address far more often, so that
+// both ways of naming such a mailbox - bare and with a domain - are used for every operation; and
+// "+Ext" is only appended where the local part stays within what RCPT accepts (a longer spelling
+// is not an address that can receive mail, so nothing is demanded of it).
 func spelling(r *fw.Rand, naming, n string) (s string, canonical bool) {
+	if naming == "local" && len(n) > 60 && r.Chance(1, 3) {
+		s = n
+		if r.Chance(1, 3) {
+			s = gen.RandCase(r, n)
+		}
+		return s + "@" + r.Pick([]string{"Lookup.Test", "alpha.test", "[192.168.1.5]"}), false
+	}
 	if !r.Chance(1, 6) {
 		return n, true
 	}
 	switch naming {
 	case "local":
 		s = gen.RandCase(r, n)
-		if r.Chance(1, 3) {
+		if r.Chance(1, 3) && len(s)+4 <= maxLocalPart {
 			s += "+Ext"
 		}
 		if r.Chance(1, 3) {
@@ -118,7 +131,7 @@ func spelling(r *fw.Rand, naming, n string) (s string, canonical bool) {
 	case "full":
 		at := strings.LastIndexByte(n, '@')
 		local, dom := gen.RandCase(r, n[:at]), gen.RandCase(r, n[at+1:])
-		if r.Chance(1, 3) {
+		if r.Chance(1, 3) && len(local)+4 <= maxLocalPart {
 			local += "+Ext"
 		}
 		s = local + "@" + dom
@@ -133,6 +146,9 @@ func spelling(r *fw.Rand, naming, n string) (s string, canonical bool) {
 
 // nameClass names the most URL-significant character of a mailbox name (for keys and signatures).
 func nameClass(n string) string {
+	if len(n) > 64 && !strings.Contains(n, "/") {
+		return "long"
+	}
 	for _, c := range "/%?#&=;+'!$*~.@[:" {
 		if strings.ContainsRune(n, c) {
 			return string(c)
@@ -146,16 +162,109 @@ func nameClass(n string) string {
 	return "plain"
 }
 
-// genNames picks the 2-4 distinct mailboxes of a history; at most one contains '/'.
+// ---- long names (added after seeded change C14-12) ----
+//
+// The property quantifies over "every mailbox name that can receive mail".  RCPT accepts local
+// parts of up to 128 characters (pkg/policy/address.go) and domains of up to 255, so mailboxes
+// with names far longer than the short words above exist, and every API operation has to work for
+// them by the bare name and by the full address alike.  About one history in four gets one long
+// name: a local part of exactly 63, 64, 65, 100, 127 or 128 characters (local and full naming) or
+// a domain of 63, 64, 65, 100, 200 or 253 characters (domain naming).  Such a name is qualified by
+// what RCPT does with it alone (Policy.NewRecipient accepts the address and names this mailbox),
+// NOT by the read-side lookup the other candidates are filtered with - the read side is what is
+// under test - and the first delivery to it always goes through a real SMTP session, so that
+// "can receive mail" is an observed fact of the history.
+const maxLocalPart = 128
+
+var (
+	longLocalLens  = []int{63, 64, 65, 100, 127, 128}
+	longDomainLens = []int{63, 64, 65, 100, 200, 253}
+)
+
+const alnumLower = "abcdefghijklmnopqrstuvwxyz0123456789"
+
+// longLocal draws a canonical local-part name of exactly l characters: lower case, no '+', no
+// '/', dots only single and inside.
+func longLocal(r *fw.Rand, l int) string {
+	al := alnumLower
+	switch r.Intn(3) {
+	case 1:
+		al += alnumLower + ".-_"
+	case 2:
+		al += alnumLower + ".-_" + "%?#&=~'!$*"
+	}
+	b := make([]byte, l)
+	for i := range b {
+		c := al[r.Intn(len(al))]
+		if c == '.' && (i == 0 || i == l-1 || b[i-1] == '.') {
+			c = 'x'
+		}
+		b[i] = c
+	}
+	return string(b)
+}
+
+// longDomain draws a lower-case domain of exactly l characters with labels of 1-63 characters.
+func longDomain(r *fw.Rand, l int) string {
+	b := make([]byte, l)
+	label := 0
+	next := r.Range(1, 63)
+	for i := range b {
+		if label >= next && i < l-1 {
+			b[i] = '.'
+			label, next = 0, r.Range(1, 63)
+			continue
+		}
+		b[i] = alnumLower[r.Intn(len(alnumLower))]
+		label++
+	}
+	return string(b)
+}
+
+// longName draws the long name of a history and its length class.
+func longName(r *fw.Rand, naming string) (string, int) {
+	switch naming {
+	case "local":
+		l := longLocalLens[r.Intn(len(longLocalLens))]
+		return longLocal(r, l), l
+	case "full":
+		l := longLocalLens[r.Intn(len(longLocalLens))]
+		return longLocal(r, l) + "@" + r.Pick(nameDomains), l
+	default:
+		l := longDomainLens[r.Intn(len(longDomainLens))]
+		return longDomain(r, l), l
+	}
+}
+
+// genNames picks the 2-4 distinct mailboxes of a history; at most one contains '/', at most one
+// is a long name.
 func genNames(h *hist) []string {
 	r := h.r
 	want := r.Range(2, 4)
 	slash := h.naming != "domain" && r.Chance(1, 7)
+	long := r.Chance(1, 4)
 	var names []string
 	seen := map[string]bool{}
+	for tries := 0; long && len(names) == 0 && tries < 8; tries++ {
+		n, l := longName(r, h.naming)
+		if seen[n] {
+			continue
+		}
+		seen[n] = true
+		if !h.rcptNames(n) {
+			// full naming only: the domain pool holds domains RCPT refuses (a double hyphen)
+			h.c.Count("candidate_names_not_receivable", 1)
+			continue
+		}
+		names = append(names, n)
+		h.long[n] = true
+		h.c.Count("long_name_histories", 1)
+		h.c.Count(fmt.Sprintf("long_name_len:%s/%d", h.naming, l), 1)
+	}
+	first := len(names)
 	for tries := 0; len(names) < want && tries < 200; tries++ {
 		n := candidateName(r, h.naming)
-		if slash && len(names) == 0 {
+		if slash && len(names) == first {
 			// the known-defect class D13: exactly one name of the history contains '/'
 			n = r.Pick(slashNames)
 			if h.naming == "full" {
@@ -186,6 +295,15 @@ func genNames(h *hist) []string {
 // receivable reports whether n is a canonical name that can receive mail: RCPT for an address
 // built from it is accepted with mailbox n, and looking n up yields n again.
 func (h *hist) receivable(n string) bool {
+	if !h.rcptNames(n) {
+		return false
+	}
+	again, err := h.we.Manager.MailboxForAddress(n)
+	return err == nil && again == n
+}
+
+// rcptNames reports whether RCPT for an address built from n is accepted with mailbox n.
+func (h *hist) rcptNames(n string) bool {
 	var addr string
 	switch h.naming {
 	case "local":
@@ -196,16 +314,13 @@ func (h *hist) receivable(n string) bool {
 		addr = "user@" + n
 	}
 	rc, err := h.we.Policy.NewRecipient(addr)
-	if err != nil || rc.Mailbox != n {
-		return false
-	}
-	again, err := h.we.Manager.MailboxForAddress(n)
-	return err == nil && again == n
+	return err == nil && rc.Mailbox == n
 }
 
 // ---- messages ----
 
 type gmsg struct {
+	odd                           *oddShape // nil: well-formed single-part text/plain
 	rawFrom, rawTo, subject, text string
 	expFrom                       string
 	expTo                         []string
@@ -230,8 +345,65 @@ var toPool = []hdrAddr{
 
 const textAlphabet = "abcdefghijklmnopqrstuvwxyz 0123456789,;!?"
 
-func genMessage(r *fw.Rand, sender string, rcpts []string) gmsg {
+// ---- odd messages (added after seeded change C14-11) ----
+//
+// The property speaks of "exactly what the store holds", and a store holds whatever it was
+// handed: the SMTP path and StoreManager.Deliver only look at the From/To/Subject headers, and
+// Store.AddMessage looks at nothing.  So about one delivery in five carries content that a MIME
+// parser rejects or has to guess about, while From/To/Subject stay well-formed (they are what the
+// model checks the stored metadata against).  Which shapes the unchanged tree stores through which
+// path was measured: all of them through Deliver and the store; through SMTP all but a header line
+// without a colon (451).  enmime.ReadEnvelope rejects the multipart types without a usable
+// boundary parameter and accepts the rest.
+//
+// What is demanded for such a message: list, source, PATCH seen, DELETE, purge and their client
+// equivalents behave exactly as for any other stored message.  What is not: the routes that
+// render the PARSED message (REST show, web UI message/html, client GetMessage) may answer 500 for
+// it - MIME decoding is not this property - but when they answer 200 the metadata must be the
+// store's, and never 404 while the store holds the message.
+type oddShape struct {
+	name   string
+	hdr    string // header lines inserted after the generated ones
+	body   string // everything after the header lines (including the blank line, if any)
+	noSMTP bool   // the SMTP path of the unchanged tree refuses it (451): delivered directly only
+}
+
+var oddShapes = []oddShape{
+	// rejected by enmime.ReadEnvelope
+	{name: "mp-no-boundary", hdr: "Content-Type: multipart/mixed\r\n", body: "\r\nbody\r\n"},
+	{name: "mp-empty-boundary", hdr: "Content-Type: multipart/mixed; boundary=\"\"\r\n", body: "\r\nbody\r\n"},
+	{name: "mp-boundary-no-value", hdr: "MIME-Version: 1.0\r\nContent-Type: multipart/mixed; boundary\r\n", body: "\r\nbody\r\n"},
+	{name: "mp-alternative-no-boundary", hdr: "Content-Type: multipart/alternative; charset=utf-8\r\n", body: "\r\n--x\r\n\r\nbody\r\n--x--\r\n"},
+	{name: "mp-report-no-boundary", hdr: "Content-Type: multipart/report; report-type=delivery-status\r\n", body: "\r\nbody\r\n"},
+	// accepted by enmime, but odd
+	{name: "mp-never-closed", hdr: "Content-Type: multipart/mixed; boundary=xyz\r\n", body: "\r\n--xyz\r\nContent-Type: text/plain\r\n\r\nhello\r\n"},
+	{name: "mp-boundary-never-seen", hdr: "Content-Type: multipart/mixed; boundary=xyz\r\n", body: "\r\nno boundary line here\r\n"},
+	{name: "mp-nested-no-boundary", hdr: "Content-Type: multipart/mixed; boundary=xyz\r\n", body: "\r\n--xyz\r\nContent-Type: multipart/alternative\r\n\r\ninner\r\n--xyz--\r\n"},
+	{name: "cte-unknown", hdr: "Content-Type: text/plain\r\nContent-Transfer-Encoding: x-rot13\r\n", body: "\r\nobql\r\n"},
+	{name: "cte-base64-garbage", hdr: "Content-Type: text/plain\r\nContent-Transfer-Encoding: base64\r\n", body: "\r\n!!!! not base64 @@@\r\n"},
+	{name: "cte-qp-broken", hdr: "Content-Type: text/plain\r\nContent-Transfer-Encoding: quoted-printable\r\n", body: "\r\na=ZZb=\r\n=\r\n"},
+	{name: "ct-garbage", hdr: "Content-Type: ;;;===\r\n", body: "\r\nbody\r\n"},
+	{name: "ct-no-subtype", hdr: "Content-Type: text\r\n", body: "\r\nbody\r\n"},
+	{name: "ct-unknown-charset", hdr: "Content-Type: text/plain; charset=x-klingon\r\n", body: "\r\nbody\r\n"},
+	{name: "ct-twice", hdr: "Content-Type: text/plain\r\nContent-Type: multipart/mixed\r\n", body: "\r\nbody\r\n"},
+	{name: "cd-garbage", hdr: "Content-Type: text/plain\r\nContent-Disposition: ;;; =\r\n", body: "\r\nbody\r\n"},
+	{name: "hdr-empty-name", hdr: ": novalue\r\nX-More: 2\r\n", body: "\r\nbody\r\n"},
+	{name: "hdr-8bit", hdr: "X-Bin: \xff\xfe\x80\r\n", body: "\r\nbody\r\n"},
+	{name: "hdr-broken-encoded-word", hdr: "X-A: =?utf-8?Q?broken\r\n", body: "\r\nbody\r\n"},
+	{name: "hdr-no-colon", hdr: "X-Fine: 1\r\nthis line has no colon\r\nX-More: 2\r\n", body: "\r\nbody\r\n", noSMTP: true},
+	{name: "hdr-only", hdr: "X-Only: 1\r\n", body: ""},
+	{name: "empty-body", hdr: "", body: "\r\n"},
+	{name: "body-nul", hdr: "", body: "\r\nbo\x00dy\r\n"},
+	{name: "body-long-line", hdr: "", body: "\r\n" + strings.Repeat("x", 5000) + "\r\n"},
+}
+
+// oddUnparseable is the number of leading oddShapes that enmime rejects (evidence only, no
+// verdict depends on it).
+const oddUnparseable = 5
+
+func genMessage(r *fw.Rand, sender string, rcpts []string, odd *oddShape) gmsg {
 	var m gmsg
+	m.odd = odd
 	var b strings.Builder
 	if r.Chance(9, 10) {
 		f := fromPool[r.Intn(len(fromPool))]
@@ -263,6 +435,12 @@ func genMessage(r *fw.Rand, sender string, rcpts []string) gmsg {
 	m.subject = strings.Join(ws, " ")
 	b.WriteString("Subject: " + m.subject + "\r\n")
 	b.WriteString("X-Case: " + r.Letters(8, "0123456789abcdef") + "\r\n")
+	if odd != nil {
+		b.WriteString(odd.hdr)
+		b.WriteString(odd.body)
+		m.raw = []byte(b.String())
+		return m
+	}
 	b.WriteString("\r\n")
 	var body strings.Builder
 	lines := r.Range(0, 5)
